@@ -10,8 +10,8 @@ from rv import gen
 from rv.harness import monitored_call, present, plain, snapshot_arg
 
 LEVEL = "exploration"
-RULE = ("histories of 30-120 calls mixing 11 partitioners, 5 packers, 3 coverers, 7 presentations, 10 output types, failing calls (oversize items, invalid cbldm arguments, infeasible ILP constraints) and "
-        "valueof failpoints (the value function raises at its n-th call, n from 1 to 3000, so that searches are aborted in mid-tree), each failing call followed (60%) by a battery of 5 probe calls to the search algorithms; value vectors, name sets and sizes come from a pool of 6 so that successive calls collide on names with different values; "
+RULE = ("histories of 20-90 calls, each played in its own fork of a pristine worker (so first-call-in-the-process situations occur in every history), mixing 11 partitioners, 5 packers, 3 coverers, 7 presentations, 10 output types, failing calls (oversize items, invalid cbldm arguments, infeasible ILP constraints) and "
+        "valueof failpoints (the value function raises at its n-th call, n from 1 to 3000, so that searches are aborted in mid-tree), each failing call followed (60%) by a battery of 5 probe calls to the search algorithms; value vectors, name sets and sizes come from a pool of 8 (six ordinary vectors plus two degenerate ones such as [0,0] or [7]) so that successive calls collide on names with different values; "
         "evaluations = calls compared; non-trivial = calls sitting in a history that already contains >= 1 failing call and >= 5 distinct algorithms; distinct on (call, position-independent)")
 ASSUMPTIONS = ["the fresh-state reference is a fork of a process that has only imported prtpy (and mip)", "a module-state digest change is recorded, not alarmed (a future cache would be legitimate)"]
 FLOORS = {"quick": {"distinct_nontrivial": 400, "fresh_references": 800, "repeat_pairs": 200}, "thorough": {"distinct_nontrivial": 2000, "fresh_references": 4000, "repeat_pairs": 1000}}
@@ -139,6 +139,8 @@ def module_state_digest():
 # ------------------------------------------------------------------ histories
 def make_pool(rng):
     pool = []
+    # degenerate vectors (one or two items, zeros only): "first use" special cases of an algorithm are of this shape
+    pool += rng.sample([[0, 0], [0], [7], [0, 0, 0], [3, 3], [0, 5], [1, 1, 1, 1]], 2)
     for j in range(6):
         # three short vectors (every algorithm) and three longer ones (so that the search algorithms really search)
         n = rng.choice([4, 5, 5, 6, 6, 7]) if j < 3 else rng.choice([8, 9, 9, 10])
@@ -156,7 +158,7 @@ def draw_call(rng, pool, force_alg=None):
     if force_alg is None and rng.random() < 0.4:
         which = C.ALL_PART.index(rng.choice(SEARCHERS))      # the stateful-looking algorithms get 40% of the calls
     if force_alg is not None:
-        vals = list(max(pool, key=len))          # probe calls use the longest vector of the pool: the searches have something to do
+        vals = list(rng.choice(sorted(pool, key=len)[-3:]))          # probe calls use the longer vectors of the pool: the searches have something to do
     case = {"values": vals, "pres": rng.choice(C.PRESENTATIONS + ("array_f",)), "pres_seed": rng.choice([1, 2]), "ot": rng.choice(OTS)}
     if which < 11:
         alg = C.ALL_PART[which]
@@ -270,9 +272,32 @@ def run_shard(spec, rng, ctx):
     end = time.time() + float(spec.get("budget_s", 60))      # wall clock: most of C15's work happens in the forked reference processes
     try:
         while time.time() < end:
-            pool = make_pool(rng)
-            run_history(rng, pool, zy, ctx, rng.randint(30, 120))
-            ctx.counters["histories"] += 1
+            # every history is played in its own fork of this (still pristine) worker: "first call in the process" situations occur once per HISTORY, not once per shard
+            seed = rng.randrange(1 << 30)
+            r, w = os.pipe()
+            pid = os.fork()
+            if pid == 0:
+                os.close(r)
+                try:
+                    from rv.harness import Ctx
+                    cctx = Ctx(ctx.prop, spec)
+                    crng = random.Random(seed)
+                    run_history(crng, make_pool(crng), zy, cctx, crng.randint(20, 90))
+                    cctx.counters["histories"] += 1
+                    data = json.dumps(cctx.dump()).encode()
+                except BaseException as e:
+                    data = json.dumps({"counters": {"history_harness_errors": 1}, "inconclusive": {"history_harness_error:" + type(e).__name__: 1}}).encode()
+                with os.fdopen(w, "wb") as f:
+                    f.write(data)
+                os._exit(0)
+            os.close(w)
+            with os.fdopen(r, "rb") as f:
+                data = f.read()
+            os.waitpid(pid, 0)
+            if data:
+                ctx.merge(json.loads(data))
+            else:
+                ctx.inconc("history_process_died")
     finally:
         zy.close()
 
